@@ -22,7 +22,7 @@ def plan(tier, seed):
 
 def thresholds(tier):
   t = {"objects_roundtripped": 20000, "hierarchies": 400, "slice_objects": 500, "field_objects": 1000,
-       "list_element_objects": 3000, "method_port_objects": 200, "interface_objects": 500, "reelaborations": 400, "lock_unlock_histories": 300, "list_construction_designs": 60}
+       "list_element_objects": 3000, "method_port_objects": 200, "interface_objects": 500, "reelaborations": 400, "lock_unlock_histories": 300, "list_construction_designs": 60, "fieldname_designs": 60}
   if tier == "thorough":
     t = {k: v * 12 for k, v in t.items()}
   return t
@@ -428,7 +428,41 @@ def run_listbuild_case(sh, case):
     G.unload(mod)
 
 
+def run_fieldname_case(sh, case):
+  """bitstruct fields named like attributes of the signal classes ( inverse, get_type, elaborate ... ): the field signal s.x.<f>
+  exists, is named and evaluates back - or the signal of that struct type is refused when it is created"""
+  from pymtl3 import Component, InPort, OutPort, Wire, mk_bits, mk_bitstruct, update
+  from pymtl3.dsl.Connectable import Signal
+  rng = sh.rng("fieldname", case)
+  pool = ["inverse", "get_type", "default_value", "elaborate", "construct", "is_signal", "get_field_name", "get_host_component", "apply",
+          "data", "val", "rdy", "msg", "opaque", "type_", "addr", "len"]
+  fields = rng.sample(pool, rng.randrange(2, 5))
+  T = mk_bitstruct(f"FN_{sh.idx}_{case}", {f: mk_bits(rng.choice([1, 4, 8])) for f in fields})
+  kind = rng.choice([InPort, OutPort, Wire])
+  class FTop(Component):
+    def construct(s):
+      s.x = kind(T); s.y = Wire(T)
+  top = FTop()
+  try:
+    top.elaborate()
+  except Exception as e:
+    sh.count("fieldname_designs_refused"); sh.count("fieldname_designs"); return
+  sh.count("fieldname_designs")
+  for f in fields:
+    sh.count("fieldname_fields_checked")
+    o = getattr(top.x, f)
+    if not isinstance(o, Signal):
+      sh.violation("struct-field-of-a-signal-is-not-a-signal", {"field": f, "got": type(o).__name__, "fields": fields, "signal_kind": kind.__name__}, case=("fieldname", case)); return
+    try: back = eval(repr(o), {"s": top})
+    except Exception as e:
+      sh.violation("eval-of-name-raised", {"name": repr(o)[:100], "error": repr(e)[:100], "stream": "fieldname"}, case=("fieldname", case)); return
+    if back is not o:
+      sh.violation("eval-of-name-yields-other-object", {"name": repr(o), "stream": "fieldname"}, case=("fieldname", case)); return
+
+
 def run_shard(sh):
+  for case in range(6):
+    if sh.only is None: run_fieldname_case(sh, sh.idx * 100 + case)
   for case in range(4):
     if sh.only is None: run_adapter_case(sh, case)
   for case in range(8):
